@@ -191,7 +191,7 @@ def make_wrapped(fail_at):
     return Wrapped()
 
 
-def run(n_prod, writes, fail_at, oracle, max_steps=3000):
+def run(n_prod, writes, fail_at, oracle, max_steps=3000, abort_first=False):
     m = load()
     sched = coop.Scheduler(oracle)
     coop.set_scheduler(sched)
@@ -209,6 +209,10 @@ def run(n_prod, writes, fail_at, oracle, max_steps=3000):
             yield from coop._coop_call(rec.set_data, 'k%d' % i, i)
         req.append(('meta', (('m', pid),)))
         yield from coop._coop_call(rec.add_metadata, {'m': pid})
+        if abort_first and pid == 0:
+            # this recording is dropped by the sampling policy: aborting it must not affect the others
+            yield from coop._coop_call(cas.abort_recording, rec)
+            return
         req.append(('save',))
         yield from coop._coop_call(cas.save_recording, rec)
 
@@ -227,8 +231,8 @@ def run(n_prod, writes, fail_at, oracle, max_steps=3000):
     return status, wrapped, sched, requested
 
 
-def check(n_prod, writes, fail_at, oracle):
-    status, wrapped, sched, requested = run(n_prod, writes, fail_at, oracle)
+def check(n_prod, writes, fail_at, oracle, abort_first=False):
+    status, wrapped, sched, requested = run(n_prod, writes, fail_at, oracle, 3000, abort_first)
     if status != 'done':
         return False, 'scheduler: ' + status
     errs = [(t.name, repr(t.error)) for t in sched.tasks if t.error]
@@ -276,7 +280,7 @@ def schedules(p1: int, p2: int, t1: int, t2: int, forced: List[int], fires: List
     fail_at = ctx.pick(fail_at, [x for x in range(-1, fmax + 1) if x != 0])
     fires = list(fires)[:B('FIRES')]
     with _untraced():
-        ok, why = check(ctx.S('producers'), ctx.S('writes'), fail_at, Oracle(pre, tg, forced, fires, ctx.S('nforced')))
+        ok, why = check(ctx.S('producers'), ctx.S('writes'), fail_at, Oracle(pre, tg, forced, fires, ctx.S('nforced')), bool(ctx.S('abort_first')))
     ctx.mark('schedule')
     if fail_at > 0:
         ctx.mark('failing-operation')
@@ -290,7 +294,7 @@ def replay_schedules(args, shard, bounds):
     npre = shard['preemptions']
     pre = [args['p1']] + ([args['p2']] if npre >= 2 else [])
     tg = [args['t1']] + ([args['t2']] if npre >= 2 else [])
-    ok, why = check(shard['producers'], shard['writes'], args['fail_at'], Oracle(pre, tg, list(args['forced']), list(args['fires']), shard.get('nforced')))
+    ok, why = check(shard['producers'], shard['writes'], args['fail_at'], Oracle(pre, tg, list(args['forced']), list(args['fires']), shard.get('nforced')), bool(shard.get('abort_first')))
     return (not ok), why
 
 
@@ -308,7 +312,9 @@ CONDITIONS = [
      'tiers': {'quick': {'bounds': _QB, 'timeout': 900,
                          'shards': [{'producers': 1, 'writes': 1, 'preemptions': 1, 'bucket': b} for b in _buckets(120, 4)] +
                                    [{'producers': 1, 'writes': 2, 'preemptions': 1, 'bucket': b} for b in _buckets(140, 4)] +
-                                   [{'producers': 2, 'writes': 1, 'preemptions': 1, 'bucket': b, 'nforced': 2, 'failmax': 2} for b in _buckets(180, 12)],
+                                   [{'producers': 2, 'writes': 1, 'preemptions': 1, 'bucket': b, 'nforced': 2, 'failmax': 2} for b in _buckets(180, 12)] +
+                                   [{'producers': 2, 'writes': 1, 'preemptions': 1, 'bucket': b, 'nforced': 1, 'failmax': -1, 'abort_first': True}
+                                    for b in _buckets(180, 6)],
                          'witness_shard': {'producers': 1, 'writes': 1, 'preemptions': 1, 'bucket': [0, 200]}},
                'thorough': {'bounds': _TB, 'timeout': 20000,
                             'shards': [{'producers': 1, 'writes': 1, 'preemptions': 2, 'bucket': b, 'nforced': 0, 'failmax': -1, 'b.FIRES': 1}
